@@ -477,16 +477,18 @@ def monitorC17 (script : List Cmd) (iters : List Iter) (d : Nat) : Option String
       | some (_, host, addrs) =>
         let t := it.now
         if kind == "hfound" then
-          -- the exact expiry instant is left open by the statement (events are assembled
-          -- before eviction in the same iteration): `≤`
+          -- unexpired at the instant of the event, the expiry millisecond included (`<`, as
+          -- `Props.C17.hfound_unexpired`): events are assembled before the eviction of the same
+          -- iteration, so this is `get_addresses_for_host`'s own expiry filter (repair of D44)
           let bad := addrs.find? fun a =>
             !(ds.any fun x => x.k ≤ k && (x.r.ty == 1 || x.r.ty == 28) && lower x.r.name == lower host &&
-                ipOf x.r == some a.ip && decide (t ≤ validUntil ds x k) &&
+                ipOf x.r == some a.ip && decide (t < validUntil ds x k) &&
                 a.ifs.all fun ((_, idx) : BList × Nat) => ds.any fun y => y.k ≤ k && y.ifi == idx && sameKey y.r x.r)
           match bad with
           | some a =>
-            -- known finding D44: on an iteration that the scheduler ran late (the script moved the
-            -- clock by hand) an address that ran out meanwhile is listed once more before it is removed
+            -- (was the known finding D44, repaired: a failing clause like the other) the label
+            -- tells the histories in which the script moved the clock by hand - a late iteration -
+            -- from the rest
             if script.any (fun c => match c with | .now _ => true | _ => false) then
               some s!"AddressesFound-lists-expired-address-on-late-iteration ip={hexOfBytes a.ip} t={t}"
             else some s!"AddressesFound-lists-address-not-live-or-wrong-interface ip={hexOfBytes a.ip} t={t}"
